@@ -5,7 +5,7 @@ from oracle_util import *  # noqa
 from protocol import from_real, to_real
 
 ID = "C05"
-LEAN_MODULE = ["SCoda.Props.C05", "SCoda.Props.C05b", "SCoda.Props.Strong589Q", "SCoda.Props.WrapTie"]
+LEAN_MODULE = ["SCoda.Props.C05", "SCoda.Props.C05b", "SCoda.Props.Strong589Q", "SCoda.Props.WrapTie", "SCoda.Props.AbsTie2"]
 LEVEL = "proof"
 CLAUSES = [
     ("every remaining event lies on a tick divisible by at least one step size; quantise never fails on well-formed input",
@@ -25,6 +25,8 @@ CLAUSES = [
      "its end lies after its quantised start, and is dropped only otherwise (the statement that does not tie the note-off to its note-on is refuted)",
      ["SCoda.C05.survives_of_lt", "SCoda.C05.dropped_of_lt", "SCoda.C05.survives_partial", "SCoda.C05.dropped_partial",
       "SCoda.C05.survives_statement_false", "SCoda.C05.dropped_statement_false"]),
+    ("TIE BY TRANSLATION, absolute view with object identity: the dict-heavy / aliasing methods of AbsoluteSequence are re-translated statement by statement on every run (Gen/AbsFns2.lean, tools/py2lean_abs2.py: Message objects live in a heap, a reference is a position tag, stores through any alias update the heap cell, dicts are insertion-ordered association lists, while loops carry proved fuel bounds) and proved equal to the hand models, for every heap and reference list with references into the heap and channels not None: quantise = the model quantise — same messages or the same error (KeyError / IndexError cases included) — for pairwise distinct objects and positive step sizes (step 0 raises ZeroDivisionError in the code and the translation, the model returns []: replayed); find_minimal_distance = the model's, no hypothesis",
+     ["SCoda.AbsTie2.quantise_eq", "SCoda.AbsTie2.quantise_init", "SCoda.AbsTie2.findMinimalDistance_eq", "SCoda.AbsTie2.pairings_eq", "SCoda.AbsTie2.pairings_init"]),
 ]
 RULE = ("well-formed multi-channel note sets (<=8 notes, 3 channels, ticks<200, 30% very short notes, abutting notes) with "
         "non-note events x step lists from the defaults and {2,3,4,5,7,12,16,24}; non-trivial = at least two notes or a note shorter than the largest step")
